@@ -198,7 +198,12 @@ func (h *fasthttpHandler) readReqMsg(ctx *fasthttp.RequestCtx) *dnsmsg.Msg {
 
 		buf := bufPool.Get()
 		defer bufPool.Release(buf)
-		_, err := buf.ReadFrom(io.LimitReader(ctx.Request.BodyStream(), 65535))
+		// There is no body stream if the request has no body.
+		body := ctx.Request.BodyStream()
+		if body == nil {
+			body = bytes.NewReader(ctx.Request.Body())
+		}
+		_, err := buf.ReadFrom(io.LimitReader(body, 65535))
 		if err != nil {
 			h.logger.Warn().
 				Object("request", (*fasthttpReqLoggerObj)(ctx)).
